@@ -109,7 +109,7 @@ func genTokens(r *hx.Rand, svc, c, n int) []Step {
 			case st == 1:
 				st = 5
 			case st == 2 && t == 2:
-				st = 3
+				st, pend = 3, false
 			case st == 2 && t == 8:
 				st = 5
 			case st == 2 && t == 7:
